@@ -660,11 +660,27 @@ def run_case(case, cfg):
             rep["goal_names"][_gfam(gname)] = rep["goal_names"].get(_gfam(gname), 0) + 1
             verdict, model, dt = "unknown", None, 0.0
             weak_model = None
-            if ctx.has_weak and isinstance(g, z3.ExprRef):
-                # relaxed attempt: weaker defining axioms (e.g. sqrt: s>=0, s=0 -> a=0); unsat is still a proof
-                verdict, weak_model, dt = smt.prove(ctx.hyps(weak=True), g, max(timeout_ms // 2, 2000), qs)
-                if verdict == "unsat":
-                    rep["relaxed_proofs"] = rep.get("relaxed_proofs", 0) + 1
+            if isinstance(g, z3.ExprRef):
+                # proof ladder: each rung uses WEAKER hypotheses than the full set, so unsat is a proof.
+                # (1) definitional cone of the goal, no path condition; (2) cone + path condition;
+                # (3) all hypotheses with relaxed defining axioms; (4) everything.
+                base = list(T.PI_AXIOMS) + ctx.assumptions
+                cone_w = ctx.cone([g], weak=True)
+                rungs = [("cone", base + cone_w)]
+                if ctx.pc:
+                    rungs.append(("cone+pc", base + ctx.cone([g] + ctx.pc, weak=True) + ctx.pc))
+                if ctx.has_weak:
+                    rungs.append(("relaxed", ctx.hyps(weak=True)))
+                for rname, rh in rungs:
+                    if len(rh) >= len(hyps) and rname != "relaxed":
+                        continue
+                    verdict, weak_model, dt = smt.prove(rh, g, max(timeout_ms // 4, 2000), qs)
+                    if verdict == "unsat":
+                        rep.setdefault("ladder", {})
+                        rep["ladder"][rname] = rep["ladder"].get(rname, 0) + 1
+                        break
+                    if rname != "relaxed":
+                        weak_model = None
             if verdict != "unsat":
                 verdict, model, dt = smt.prove(hyps, g, timeout_ms, qs)
             if verdict == "unknown" and weak_model is not None:
@@ -711,6 +727,22 @@ def _reach(ctx, hyps, timeout_ms, qs):
     """reachability twin: are the path hypotheses satisfiable?  Falls back to fixing the base
     variables (inputs, random draws) to a model of the relaxed hypotheses, which leaves only the
     defined symbols (sqrt, quotients, ...) for the solver."""
+    # the path's own incremental solver has already seen all hypotheses: cheapest first
+    try:
+        t0 = time.time()
+        ctx.solver.set("timeout", max(timeout_ms // 4, 2000))
+        r0 = ctx.solver.check()
+        qs.n += 1
+        qs.time += time.time() - t0
+        if r0 == z3.sat:
+            qs.sat += 1
+            return "sat", ctx.solver.model()
+        if r0 == z3.unsat:
+            qs.unsat += 1
+            return "unsat", None
+        qs.unknown += 1
+    except z3.Z3Exception:
+        pass
     v, m, _ = smt.check_sat(hyps, max(timeout_ms // 4, 2000), qs, strategies=("nlsat", "default"))
     if v != "unknown" or not ctx.has_weak:
         return v, m
